@@ -282,6 +282,29 @@ def wideratio_compound(mode: str, version: int, thorough: bool = False):
         out.append(("op:WideRatio:vars:%s" % nm,
                     prog(mode, ("Seq", e.tag(60)) + tuple(sub(p) for p in pre) + (e.observe_u(("WideRatio", tuple(sub(k) for k in ns), tuple(sub(k) for k in ds))),),
                          {"x": {"t": "u"}, "y": {"t": "u"}}), {}))
+    # a factor read by two routines from a variable that the main routine stores and immediately checks
+    if version >= 4:
+        e = Env(mode, version)
+        rate = ("If", e.u(1), ("Int", 30), ("Int", M))
+        subs = {"fee": {"params": [("val", "a")], "ret": "u", "body": ("WideRatio", (("Param", "a"), ("Load", "k")), (("Int", 10000), ("Int", 1)))},
+                "rest": {"params": [("val", "a")], "ret": "u", "body": ("WideRatio", (("Param", "a"), ("Bin", "Minus", ("Int", 10000), ("Bin", "Mod", ("Load", "k"), ("Int", 10000)))),
+                                                                            (("Int", 10000), ("Int", 1)))}}
+        out.append(("op:WideRatio:vars:shared-two-readers",
+                    prog(mode, ("Seq", e.tag(60), ("Store", "k", rate), ("Assert", ("Bin", "Ge", ("Load", "k"), ("Int", 1))),
+                                e.observe_u(("Bin", "Add", ("Call", "fee", ("Int", 1000000)), ("Bin", "Mod", ("Call", "rest", ("Int", 1000000)), ("Int", 7))))), {"k": {"t": "u"}}, subs), {}))
+    # a factor that is the result of a call which re-enters the calling routine through a cycle of three routines, the other
+    # factor a value the routine holds across that call
+    if version >= 4:
+        e = Env(mode, version)
+        P, Q = ("Param", "n"), ("Bin", "Minus", ("Param", "n"), ("Int", 1))
+        subs = {
+            "A": {"params": [("val", "n")], "ret": "u", "body": ("Seq", ("Store", "k", ("Bin", "Add", P, ("Int", 1))), ("If", ("Bin", "Eq", P, ("Int", 0)), ("Return", ("Int", 1))),
+                                                                 ("Return", ("WideRatio", (("Call", "B", Q), ("Load", "k")), (("Int", 1), ("Int", 1)))))},
+            "B": {"params": [("val", "n")], "ret": "u", "body": ("Bin", "Add", ("Call", "C", P), ("Int", 0))},
+            "C": {"params": [("val", "n")], "ret": "u", "body": ("Call", "A", P)},
+        }
+        out.append(("op:WideRatio:vars:recursion3", prog(mode, ("Seq", e.tag(60), e.observe_u(("Call", "A", ("Bin", "Mod", e.u(0), ("Int", 4))))), {"k": {"t": "u"}}, subs),
+                    {"call_depth": 12, "max_paths": 400}))
     # one fully symbolic factor among small constants (wide arithmetic with one unknown; ~1 min each)
     if not thorough:
         return out
